@@ -621,9 +621,12 @@ def twin_cases(rng, tier):
         pairs.append((l, v))
         n -= 1
     out = []
-    for a, b in pairs:
-        for layout in TWIN_LAYOUTS:
-            for swap in (False, True):
+    for n_, (a, b) in enumerate(pairs):
+        # quick tier: the listed twins in every layout and both orders, the controls in every layout, a random twin in one layout
+        layouts = TWIN_LAYOUTS if (tier == "thorough" or n_ < len(TWIN_PAIRS)) else [TWIN_LAYOUTS[n_ % 3]]
+        swaps = (False, True) if (tier == "thorough" or n_ < 11) else (bool(n_ % 2),)
+        for layout in layouts:
+            for swap in swaps:
                 va, vb = (b, a) if swap else (a, b)
                 out.append({"va": va, "vb": vb, "layout": layout})
     for j, c in enumerate(out):
@@ -727,7 +730,8 @@ def stage_twins(run, tier):
                     else:
                         es = list(rr.get("enums", {}).values())
                         mvals = [dec_value(v) for k, v in es[0]["members"] if k in es[0]["canonical"]] if len(es) == 1 else None
-                        if len(es) == 1:
+                        if len(es) == 1 and (tier == "thorough" or not c.get("_tabled")):
+                            c["_tabled"] = True      # quick tier: one class-table comparison per case (each evaluates Scopes.model_decls)
                             nmap = {unicodedata.normalize("NFKC", k): k for k in (_real_keys(vs) or {})}
                             mem = [(nmap.get(k, k), dec_value(v)) for k, v in es[0]["members"]]
                             terms.append(f"ocls_eqb (tw_table {ds} {cd(site)} {vt}) (Some {clist(['(%s, %s)' % (cstr(k), vals.cjval(v)) for k, v in mem], '(str * jval)')})")
